@@ -474,7 +474,43 @@ def r6_async(ctx, A):
             ctx.check("R6-async-siblings", "%s::%s/dominates" % (tag, owner.name), not bad,
                       "%s::%s: %s can run before the space check" % (tag, owner.name, sorted(set(c.name for c in bad))), loc=b.loc())
     r5_append_async(ctx, A)
+    r6_vectored(ctx, A)
     ctx.floor("R6-async-siblings", 8)
+
+
+def r6_vectored(ctx, A):
+    """The unrolled async vectored read/write on a File: the k-th concurrent operation of a group works on bufs[pos+k] at the
+    group's start offset plus the lengths of bufs[pos .. pos+k) - each earlier buffer once, no other."""
+    from rules.c20 import async_frame
+    n = 0
+    for nm, op in (("async_read_vectored_at_volatile", "async_read_at_volatile"), ("async_write_vectored_at_volatile", "async_write_at_volatile")):
+        ms = [x for k, x in A.fns.items() if x.name == nm and x.kind == "assoc" and "async_file::File" in k]
+        if len(ms) != 1:
+            raise core.Anchor("File::%s (%d)" % (nm, len(ms)))
+        body, _ = async_frame(A, ms[0])
+        ctx.fn_seen(ms[0])
+        v = vf.VF(body, inline_depth=0, opaque_loops=True)
+        for c in live_calls(body):
+            if c.name != op:
+                continue
+            a = [vf.render(x, body, short=True, vfx=v) for x in v.call_args(c)]
+            m = re.fullmatch(r"Vec::index\(loop\(bufs\), (?:loop\(pos\)|Add\((\d+), loop\(pos\)\))\)", a[1])
+            if m is None:
+                if a[1] == "Vec::index(^bufs, 0)":
+                    ctx.check("R6-async-siblings", "%s/single" % nm, a[2] == "^offset", "%s: the single-buffer case uses offset `%s`" % (nm, a[2][:80]), loc=c.loc())
+                    continue
+                ctx.violation("R6-async-siblings", "%s/shape" % nm, "shape not recognised: operation on `%s`" % a[1][:120], loc=c.loc())
+                continue
+            k = int(m.group(1) or 0)
+            terms = re.findall(r"\(FileVolatileBuf::bytes_total\(Vec::index\(loop\(bufs\), (loop\(pos\)|Add\(\d+, loop\(pos\)\))\)\) as u64\)", a[2])
+            idx = sorted(0 if t == "loop(pos)" else int(re.match(r"Add\((\d+)", t).group(1)) for t in terms)
+            rest = re.sub(r"\(FileVolatileBuf::bytes_total\(Vec::index\(loop\(bufs\), (loop\(pos\)|Add\(\d+, loop\(pos\)\))\)\) as u64\)", "T", a[2])
+            shape_ok = re.fullmatch(r"(Add\(T, )*loop\(offset\)\)*", rest) is not None
+            n += 1
+            ctx.check("R6-async-siblings", "%s/offset-of-buffer-%d#%d" % (nm, k, n), idx == list(range(k)) and shape_ok,
+                      "%s: the operation on bufs[pos+%d] runs at file offset `%s`; it must be the group's offset plus the lengths of bufs[pos..pos+%d), each once"
+                      % (nm, k, a[2][:200], k), loc=c.loc())
+    ctx.check("R6-async-siblings", "vectored/sites", n >= 18, "only %d unrolled vectored operations found" % n)
 
 
 def r5_append_async(ctx, A):
